@@ -112,14 +112,15 @@ class Partition:
 
     @property
     def hw(self):
+        # (log start <= LSO <= HW <= log end, as on a broker)
         if self.hw_override is not None:
-            return min(self.hw_override, self.next_offset)
+            return max(min(self.hw_override, self.next_offset), self.log_start)
         return self.next_offset
 
     @property
     def lso(self):
         if self.open_txns:
-            return min(min(self.open_txns.values()), self.hw)
+            return max(min(min(self.open_txns.values()), self.hw), self.log_start)
         return self.hw
 
     def add_stored(self, raw, append_ms=None, track_txn=True):
